@@ -28,6 +28,8 @@ THEOREMS = ["C06_sy", "C06_rpn", "C06_value", "C06_number", "C06_number_Z", "C06
             "C06_lex_tokens", "C06_lex_join", "C06_text_of_join", "C06_lex_parse", "C06_eval_strip", "C06_lex_value",
             "C06_lex_value_reading", "C06_lex_spacing", "C06_lex_numfmt"]
 PROOF_HEADER = "From A816 Require Import Properties.C06 Properties.C06Lex."
+# model-tie modules whose correspondence is part of this property's check (parts of the model its theorems rest on)
+TIES = ['EXPRTXT']
 RULE = ("expression trees (every operator pair and triple in every grouping, prefix operators in every position, "
         "random trees to depth 6, literals in three bases at boundary magnitudes, bound identifiers, random spacing, "
         "redundant parentheses) rendered in their conventional reading and evaluated by eval_expression_str and through "
